@@ -113,7 +113,7 @@ func hasStd(d *dialect.Dialect, id uint32, std message.Message) bool {
 
 func TestC16Automatic(t *testing.T) {
 	rec := evid.New(t, "C16", "generated node configurations (heartbeat on/off, period 20-80ms, system/autopilot type, dialect in {common, ardupilotmega, minimal, user dialects with version 0..255 with / without / with a fake HEARTBEAT or REQUEST_DATA_STREAM, none}, stream requests on/off, frequency 1..50, 1..3 channels, v1/v2 output) and histories of incoming heartbeats from generated (channel, system, component, autopilot) sources repeated several times and interleaved with other messages; oracles: heartbeats on every channel with the configured fields, status 4, dialect version, at most elapsed/period+1 of them and at least 2, none when disabled or the dialect lacks the standard message; for each distinct ArduPilot sender exactly the seven data-stream requests (1,2,3,6,10,11,12) at the configured rate addressed to it on its channel only plus one stream-requested event, nothing for other autopilots, other messages or when disabled; non-trivial = >=2 ArduPilot senders on >=2 channels plus a non-ArduPilot sender; distinct by hash of the scenario")
-	rec.Require("hb-enabled", "hb-disabled-or-missing", "sr-enabled-with-ardupilot", "sr-not-applicable", "multi-sender-multi-channel", "user-dialect", "v1-output", "several-channels-one-endpoint", "dialect-version-0")
+	rec.Require("hb-enabled", "hb-disabled-or-missing", "sr-enabled-with-ardupilot", "sr-not-applicable", "multi-sender-multi-channel", "user-dialect", "v1-output", "several-channels-one-endpoint", "dialect-version-0", "ardupilot-sender-with-the-node's-own-ids")
 	evid.Check(t, rec, evid.N(200, 600), func(t *rapid.T) {
 		w := &c16World{}
 		w.dialectKind = rapid.SampledFrom([]string{"common", "common", "ardupilotmega", "ardupilotmega", "ardupilotmega", "minimal", "user", "user", "user", "user-no-hb", "user-fake-hb", "user-no-rds", "user-fake-rds", "nil"}).Draw(t, "dialect")
@@ -129,11 +129,15 @@ func TestC16Automatic(t *testing.T) {
 		ns := rapid.OneOf(rapid.IntRange(0, 7), rapid.IntRange(4, 9)).Draw(t, "nsources")
 		for i := 0; i < ns; i++ {
 			h := hbSource{ch: rapid.IntRange(0, w.nch-1).Draw(t, "src_ch"),
-				sys:       byte(rapid.IntRange(1, 6).Draw(t, "src_sys")),
-				comp:      byte(rapid.IntRange(1, 3).Draw(t, "src_comp")),
+				sys:       byte(rapid.OneOf(rapid.IntRange(1, 6), rapid.IntRange(1, 6), rapid.SampledFrom([]int{nodeSys, 0, 255})).Draw(t, "src_sys")),
+				comp:      byte(rapid.OneOf(rapid.IntRange(1, 3), rapid.IntRange(1, 3), rapid.SampledFrom([]int{nodeComp, 0, 255})).Draw(t, "src_comp")),
 				autopilot: rapid.SampledFrom([]byte{3, 3, 3, 0, 12, 8, 4, 2}).Draw(t, "src_ap"),
 				v2:        rapid.Bool().Draw(t, "src_v2"),
 				repeat:    rapid.IntRange(1, 4).Draw(t, "repeat")}
+			// a vehicle configured with the very ids this node uses is a sender like any other
+			if rapid.IntRange(0, 9).Draw(t, "same_ids_as_node") == 0 {
+				h.sys, h.comp = nodeSys, nodeComp
+			}
 			w.sources = append(w.sources, h)
 		}
 		w.others = rapid.IntRange(0, 10).Draw(t, "others")
@@ -534,6 +538,12 @@ func runC16(w *c16World) ([]string, error) {
 	}
 	if !w.outV2 {
 		cls = append(cls, "v1-output")
+	}
+	for kk := range ardu {
+		if srActive && kk.sys == nodeSys && kk.comp == nodeComp {
+			cls = append(cls, "ardupilot-sender-with-the-node's-own-ids")
+			break
+		}
 	}
 	return cls, nil
 }
